@@ -430,6 +430,51 @@ static void run_per_cpu_free_race(void)
 	main_leave();
 }
 
+/* a callback queued while the helper is already waiting for a grace period (for an earlier callback) must get a grace period of its
+ * own: reader 2 enters after the first call_rcu and before the second, and outlives the first reader */
+#define N_GOK(k) (364 + (k))
+static int gok_pred(void *a) { return (int)vrt_note_get(N_GOK((int)(long)a)); }
+
+static void *hold_reader_k(void *a)
+{
+	int t = vrt_tid(), k = (int)(long)a;
+
+	rcu_register_thread();
+	RD_LOCK();
+	vrt_note_set(N_SECB(t), vrt_now());
+	uatomic_inc(&nready);
+	vrt_note_set(N_R(0), (unsigned long)LD(x));
+	BLOCKING(vrt_await(gok_pred, (void *)(long)k));
+	vrt_note_set(N_SECE(t), vrt_now() + 1);
+	RD_UNLOCK();
+	rcu_unregister_thread();
+	return NULL;
+}
+
+static void run_during_gp(void)
+{
+	pthread_t r1, r2;
+
+	main_enter();
+	pthread_create(&r1, NULL, hold_reader_k, (void *)1L);
+	BLOCKING(vrt_await(ready_pred, (void *)1L));
+	ST(x, 1);
+	do_call_rcu(0, cb);		/* the helper starts a grace period that reader 1 holds open */
+	pthread_create(&r2, NULL, hold_reader_k, (void *)2L);
+	BLOCKING(vrt_await(ready_pred, (void *)2L));
+	do_call_rcu(1, cb);		/* queued while that grace period is (possibly) in flight; reader 2 pre-exists this call */
+	vrt_note_set(N_GOK(1), 1);	/* reader 1 leaves: the first grace period may end */
+	BLOCKING(vrt_yield());		/* give the helper time to finish it (it may also have batched both callbacks: then it needs */
+	BLOCKING(vrt_yield());		/* reader 2 gone as well, so reader 2 must not wait for a callback) */
+	BLOCKING(vrt_yield());
+	vrt_note_set(N_GOK(2), 1);
+	BLOCKING(pthread_join(r1, NULL));
+	BLOCKING(pthread_join(r2, NULL));
+	wait_cbs(2);
+	check_cbs("during_gp", 2);
+	main_leave();
+}
+
 /* ---- C04 scenarios: rcu_barrier ------------------------------------------------------------------------ */
 static int flag;
 static int flag_pred(void *a) { (void)a; return flag; }
@@ -634,6 +679,7 @@ struct vrt_scenario vrt_scenarios[] = {
 	{ "per_cpu", run_per_cpu, "per-CPU helpers (params cpu, migrate)" },
 	{ "reenqueue", run_reenqueue, "callback re-enqueues a callback" },
 	{ "reenqueue_free", run_reenqueue_free, "helper destroyed while its running batch re-enqueues a callback" },
+	{ "during_gp", run_during_gp, "second call_rcu while the helper waits for the first callback's grace period; a reader in between" },
 	{ "per_cpu_free_race", run_per_cpu_free_race, "call_rcu on a per-CPU helper || free_all_cpu_call_rcu_data" },
 	{ "reclaim", run_reclaim, "callback frees the object a reader may hold" },
 	{ "barrier", run_barrier, "rcu_barrier after call_rcu by another thread (params per_thread, reader, await_flag, second_cb)" },
